@@ -173,8 +173,12 @@ func TestVfC07Cache(t *testing.T) {
 		tiny := rapid.IntRange(0, 3).Draw(t, "tinyCache") == 0
 		P := proxies[tiny]
 		label := fmt.Sprintf("c%dp%d", seq, os.Getpid())
-		baseName := vfkit.Name{[]byte(label), []byte("cache"), []byte("test")}
+		baseName := vfkit.Name{[]byte("_" + label), []byte("cache"), []byte("test")}
 		otherName := vfkit.Name{[]byte(label + "x"), []byte("cache"), []byte("test")}
+		if rapid.Bool().Draw(t, "bit5Twin") {
+			// the "other name" differs from the base only in bit 0x20 of a non-letter octet ('_' vs DEL)
+			otherName = vfkit.Name{[]byte("\x7f" + label), []byte("cache"), []byte("test")}
+		}
 		baseType := rapid.SampledFrom([]uint16{1, 28, 16}).Draw(t, "type")
 		baseClass := rapid.SampledFrom([]uint16{1, 1, 3}).Draw(t, "class")
 		n := rapid.IntRange(8, 24).Draw(t, "nAsks")
@@ -190,7 +194,7 @@ func TestVfC07Cache(t *testing.T) {
 			a := ask{name: baseName, typ: baseType, class: baseClass, client: c07GenClient(t), burst: 1}
 			switch rapid.IntRange(0, 7).Draw(t, "vary") {
 			case 0: // letter case only
-				a.name = vfkit.Name{[]byte(strings.ToUpper(label)), []byte("CaChE"), []byte("tEST")}
+				a.name = vfkit.Name{[]byte("_" + strings.ToUpper(label)), []byte("CaChE"), []byte("tEST")}
 			case 1:
 				a.name = otherName
 			case 2:
